@@ -587,7 +587,8 @@ def run(ctx):
     # design checks
     base = dict(MaxCrash=2, MaxReq=1, Legacy=False)
     fixed = write_cfg(ctx.scratch / 'cc_fixed.cfg', base, spec='FairSpec',
-                      invariants=['NoPartialVisible', 'NoInterpreterDeath', 'NoFailedRequest', 'LoadedRight'],
+                      invariants=['NoPartialVisible', 'NoInterpreterDeath', 'NoFailedRequest', 'LoadedRight',
+                                  'IndInv'],       # IndInv: the inductive invariant of the unbounded TLAPS proof
                       properties=['NoOverwrite', 'Recovery'],
                       subst={'Procs': '{1,2,3}' if ctx.thorough else '{1,2}', 'Srcs': '{"a","b"}'})
     # write_cfg's subst emits '<-' lines; sets are constants here, so patch to '='
@@ -608,7 +609,14 @@ def run(ctx):
 
     pool = ThreadPoolExecutor(24)
     futs = []
-    futs.append(pool.submit(ctx.tlc, 'CompileCache', fixed, workers=4, timeout=3000))
+    # the bounded model is explored through CompileCacheProof (EXTENDS CompileCache, adds IndInv and the TLAPS proof of
+    # the safety properties for ANY number of processes, digests, crashes and requests); tlapm re-checks the proof
+    futs.append(pool.submit(ctx.tlc, 'CompileCacheProof', fixed, workers=4, timeout=3000))
+    from ..common import run_tlaps
+    futs.append(pool.submit(run_tlaps, ctx, 'CompileCacheProof',
+                            'NoPartialVisible, NoInterpreterDeath, NoFailedRequest, LoadedRight, NoOverwrite for ANY '
+                            'number of processes / digests / crashes / requests (inductive invariant IndInv)',
+                            1500, ('CompileCache',)))
     for cfgp, inv in legacy_cfgs:
         futs.append(pool.submit(ctx.expect_violation, 'CompileCache', cfgp, inv, workers=2))
 
